@@ -49,8 +49,11 @@ type Contract struct {
 	LoopDec    map[int]*Clause
 	LoopMods   map[int][]string
 	Modifies   []string
+	CallAsserts map[string][]*Clause // callee -> assertions checked just before each call of it
+	ModAt      map[string][]string // component spelling -> address expressions (only these objects change)
 	HasMods    bool
 	SafetyTags []string
+	SafetyAt   map[string][]string // site substring -> props (restricts the tag to matching sites)
 	ErrorTags  []string
 	FrameTags  []string
 	LockTags   []string
@@ -151,7 +154,7 @@ func (g *Gen) loadContractFile(path string) error {
 		word, rest := splitWord(body)
 		switch word {
 		case "func":
-			cur = &Contract{Pkg: pkg, Func: rest, LoopInv: map[int][]*Clause{}, LoopDec: map[int]*Clause{}, LoopMods: map[int][]string{}, Absorbs: map[string]string{}, Unordered: map[string]string{}, File: path, Line: ln}
+			cur = &Contract{Pkg: pkg, Func: rest, LoopInv: map[int][]*Clause{}, LoopDec: map[int]*Clause{}, LoopMods: map[int][]string{}, Absorbs: map[string]string{}, Unordered: map[string]string{}, CallAsserts: map[string][]*Clause{}, SafetyAt: map[string][]string{}, ModAt: map[string][]string{}, File: path, Line: ln}
 			key := pkg + "." + rest
 			if _, dup := g.contracts[key]; dup {
 				return fmt.Errorf("%s:%d: duplicate contract for %s", path, ln, key)
@@ -227,7 +230,10 @@ func (g *Gen) loadContractFile(path string) error {
 				return fmt.Errorf("%s:%d: clause outside func", path, ln)
 			}
 			cur.HasMods = true
-			if rest != "nothing" {
+			if i := strings.Index(rest, " at "); i > 0 {
+				comp := strings.TrimSpace(rest[:i])
+				cur.ModAt[comp] = append(cur.ModAt[comp], strings.TrimSpace(rest[i+4:]))
+			} else if rest != "nothing" {
 				cur.Modifies = append(cur.Modifies, strings.Fields(rest)...)
 			}
 		case "pure":
@@ -238,6 +244,19 @@ func (g *Gen) loadContractFile(path string) error {
 			if cur.Trusted == "" {
 				cur.Trusted = "no reason given"
 			}
+		case "at-call":
+			// at-call <callee> assert label[Cnn]: expr
+			callee, r2 := splitWord(rest)
+			w3, r3 := splitWord(r2)
+			if w3 != "assert" {
+				return fmt.Errorf("%s:%d: at-call <callee> assert label[..]: expr", path, ln)
+			}
+			cl, err := parseClause("assert", r3, path, ln)
+			if err != nil {
+				return err
+			}
+			cur.CallAsserts[callee] = append(cur.CallAsserts[callee], cl)
+			lastClause = cl
 		case "assume-userfn":
 			cur.AssumeUserFn = true
 		case "unordered":
@@ -258,6 +277,12 @@ func (g *Gen) loadContractFile(path string) error {
 			// tag directives: safety[C05,C10], errors[C19], frame[C11], locks[C13]
 			if m := regexp.MustCompile(`^(safety|errors|frame|locks|order)\s*\[([A-Z0-9, ]+)\]`).FindStringSubmatch(body); m != nil && cur != nil {
 				ps := parseProps(m[2])
+				restAfter := strings.TrimSpace(body[len(m[0]):])
+				if m[1] == "safety" && strings.HasPrefix(restAfter, "at ") {
+					site := strings.TrimSpace(restAfter[3:])
+					cur.SafetyAt[site] = append(cur.SafetyAt[site], ps...)
+					continue
+				}
 				switch m[1] {
 				case "safety":
 					cur.SafetyTags = append(cur.SafetyTags, ps...)
